@@ -130,6 +130,23 @@ def main(repo):
             if b is not a:
                 restored.append("pickle round trip of %r of table %r gives another object (of table %r)"
                                 % (a, a.table, getattr(b, "table", None)))
+    # ... and whatever the table is called (names are arbitrary strings)
+    for name in ("", "0", " ", "Public", "public ", "None"):
+        try:
+            tn = core.PeriodicTable(name)
+            mass.init(tn)
+        except Exception as e:  # noqa
+            restored.append("a private table named %r cannot be created: %s" % (name, type(e).__name__))
+            continue
+        for a in (tn.Fe, tn.Fe[56], tn.Fe.ion[2], tn.Fe[56].ion[3], tn.D, tn[0]):
+            try:
+                b = pickle.loads(pickle.dumps(a))
+            except Exception as e:  # noqa
+                restored.append("pickle round trip of %r of the table named %r raised %s" % (a, name, type(e).__name__))
+                continue
+            if b is not a or core.change_table(b, tn) is not b:
+                restored.append("pickle round trip of %r of the table named %r gives an atom of table %r"
+                                % (a, name, getattr(b, "table", None)))
     foreign = []
     cases = [
         ("formula", lambda: formulas.formula("Fe2O3 + 3H2O", table=T)),
